@@ -41,7 +41,9 @@ struct ControlEndpoint {
         sockaddr_in a{}; a.sin_family = AF_INET; a.sin_addr.s_addr = htonl(INADDR_LOOPBACK); a.sin_port = 0;
         ::bind(fd, reinterpret_cast<sockaddr*>(&a), sizeof a);
         socklen_t len = sizeof a; ::getsockname(fd, reinterpret_cast<sockaddr*>(&a), &len); port = ntohs(a.sin_port);
-        if (script.code == 0) { ::close(fd); fd = -1; return; }          // the port is known to be free and nobody listens
+        // a closed port stays bound (and refuses every connection: nobody listens) until the case is over, so that the kernel
+        // cannot hand the same number to another endpoint of this case
+        if (script.code == 0) return;
         ::listen(fd, 8);
         th = std::thread([this] {
             for (;;) {
@@ -64,6 +66,7 @@ struct ControlEndpoint {
     }
     void finish() {
         if (fd < 0) return;
+        if (script.code == 0) { ::close(fd); fd = -1; return; }
         stop = true;
         // wake the accept
         const int k = ::socket(AF_INET, SOCK_STREAM, 0);
@@ -74,12 +77,13 @@ struct ControlEndpoint {
     }
 };
 
+static std::vector<int> g_reserved;       // bound, not listening: closed ports of the running case
 static std::uint16_t free_port() {
     const int fd = ::socket(AF_INET, SOCK_STREAM, 0);
     sockaddr_in a{}; a.sin_family = AF_INET; a.sin_addr.s_addr = htonl(INADDR_LOOPBACK); a.sin_port = 0;
     ::bind(fd, reinterpret_cast<sockaddr*>(&a), sizeof a);
     socklen_t len = sizeof a; ::getsockname(fd, reinterpret_cast<sockaddr*>(&a), &len);
-    ::close(fd);
+    g_reserved.push_back(fd);
     return ntohs(a.sin_port);
 }
 
@@ -185,6 +189,8 @@ int main() {
 
         for (auto& ep : controls) if (ep) ep->finish();
         local.finish();
+        for (int fd : g_reserved) ::close(fd);
+        g_reserved.clear();
         std::filesystem::remove(outfile);
         for (auto* n : nodes) { n->stop_transport(); delete n; }
     }, 120);
